@@ -38,12 +38,6 @@ def _decode_escape_sequence(  # noqa: PLR0911
         return ch, index
     if ch == "\\":
         return "\\", index
-    if ch == "/":
-        return "/", index
-    if ch == "b":
-        return "\x08", index
-    if ch == "f":
-        return "\x0c", index
     if ch == "n":
         return "\n", index
     if ch == "r":
